@@ -2,6 +2,7 @@ import Dcg.Model.Names
 import Dcg.Model.Escape
 import Dcg.Py.Lex
 import Dcg.Gen.EscTables
+import Dcg.Gen.EnumSites
 /-
 Dcg.Model.Enum — transliteration of `JsonSchemaParser.parse_enum` (member construction),
 `parse_enum_as_literal`, `should_parse_enum_as_literal`, `model/enum.py Enum.find_member` and the
@@ -124,9 +125,34 @@ def foldMembers (E : Env) (cfg : Cfg) (o : EnumObj) :
     | .outOfFuel => .outOfFuel
     | .error => .error
 
+/-! ### the call sites of the enum resolver
+
+`foldMembers` is the loop both callers run (`field_name = get_valid_field_name(…, excludes=exclude_field_names,
+model_type=ModelType.ENUM)`, then `exclude_field_names.add(field_name)`). What the excludes set holds BEFORE the
+first member is a property of the call site and is read off the source (`Dcg.Gen.EnumSites.sites`). -/
+
+/-- initial excludes of the call site with that qualified name (`[]` for a name the translator did not find) -/
+def siteInit (name : String) : List (List Char) :=
+  ((Dcg.Gen.EnumSites.sites.find? (·.name == name)).map (·.init)).getD []
+
+/-- `JsonSchemaParser.parse_enum` (JSON Schema and, by inheritance, OpenAPI) -/
+def jsonInit : List (List Char) := siteInit "JsonSchemaParser.parse_enum"
+
+/-- `GraphQLParser.parse_enum` -/
+def graphqlInit : List (List Char) := siteInit "GraphQLParser.parse_enum"
+
 /-- members of the Enum class and whether a nullable wrapper (`Optional` root type) is generated -/
 def parseEnum (E : Env) (cfg : Cfg) (o : EnumObj) : Res (List Member × Bool) :=
-  (foldMembers E cfg o (enumTimes o).1 0 []).map (·, (enumTimes o).2)
+  (foldMembers E cfg o (enumTimes o).1 0 jsonInit).map (·, (enumTimes o).2)
+
+/-- the schema object a GraphQL enum type amounts to: every value is its own name, a string -/
+def graphqlObj (names : List (List Char)) : EnumObj := ⟨some strT, names.map .str, []⟩
+
+/-- `GraphQLParser.parse_enum`: the value names (in the order of the sorted schema, supplied by the harness) go
+through the same resolver loop, started from the GraphQL site's own excludes; the member default is
+`f"'{value_name.translate(escape_characters)}'"`; no null split, no `x-enum-varnames` -/
+def parseGraphqlEnum (E : Env) (cfg : Cfg) (names : List (List Char)) : Res (List Member) :=
+  foldMembers E cfg (graphqlObj names) (names.map .str) 0 graphqlInit
 
 /-- what the member's right-hand side evaluates to when Python reads the rendered class
 (`name = <default>` followed by a newline) -/
